@@ -229,6 +229,8 @@ def shards(tier, seed):
     out += [("extorder",) + o for n in (2, 3) for o in itertools.product(("asgi", "zerocopy"), repeat=n)]
     out += [("options", iface) for iface in ("wsgi", "asgi", "zerocopy")]
     out.append(("versions",))
+    # some families once more in interpreters that run with assert statements compiled away (python -O)
+    out += [("python-O", ("files", SIZES[tier][min(2, len(SIZES[tier]) - 1)], 0)), ("python-O", ("files", SIZES[tier][-1], 1)), ("python-O", ("history", 1)), ("python-O", ("options", "asgi"))]
     return out
 
 
@@ -331,6 +333,10 @@ def run_history(r, first):
 
 def run_shard(desc, tier):
     r = R()
+    if desc[0] == "python-O":
+        # the same family in an interpreter that runs with assert statements compiled away
+        from ..core import fresh
+        return fresh.optimized(__name__, tuple(desc[1]), tier)
     if desc[0] == "history":
         run_history(r, HIST_SIZES[desc[1]])
         return r
@@ -583,6 +589,10 @@ def finish(merged, tier):
 
 
 def replay(w):
+    import sys as _sys
+    if w.get("optimize") and not _sys.flags.optimize:
+        from ..core import fresh
+        return fresh.replay_optimized(__name__, w)
     r = R()
     if "options" in w:
         run_options(r, w["iface"])
